@@ -69,7 +69,7 @@ def strip_lean_comments(text):
 def reachable_lean_files():
     """the files of the deliverable: everything imported (transitively) from the library
     root and the driver roots; work-in-progress files that nothing imports are not part of it"""
-    roots = [f for f in ("Wormhole.lean", "Main.lean", "DbMain.lean", "RegMain.lean", "Wormhole/Tie/All.lean", "Wormhole/Tie/WsReject.lean", "Wormhole/Tie/WsBody.lean", "Wormhole/Tie/WsTop.lean", "Wormhole/Tie/Summ.lean", "Wormhole/Tie/Tap.lean", "Wormhole/Tie/SrvAll.lean") if os.path.exists(os.path.join(LEAN, f))]
+    roots = [f for f in ("Wormhole.lean", "Main.lean", "DbMain.lean", "RegMain.lean", "Wormhole/Tie/All.lean", "Wormhole/Tie/WsReject.lean", "Wormhole/Tie/WsBody.lean", "Wormhole/Tie/WsTop.lean", "Wormhole/Tie/Summ.lean", "Wormhole/Tie/Tap.lean", "Wormhole/Tie/SrvAll.lean", "Wormhole/Tie/Wire.lean") if os.path.exists(os.path.join(LEAN, f))]
     seen, todo = set(), list(roots)
     while todo:
         f = todo.pop()
@@ -411,6 +411,7 @@ def main():
         su = sqltie.run_summ()
         sqltie.run_tap()
         sv = sqltie.run_srv()
+        sqltie.run_wire()
         log("setup: srv_tie=%s (%d/%d theorems)" % (sv["status"], sv["discharged"], sv["theorems"]))
         print("setup: driver_ok=%s proofs_ok=%s sql_tie=%s (%d statements, %d/%d theorems) ws_tie=%s (%d/%d theorems) summ_tie=%s (%d/%d)" % (
             b["driver_ok"], b["proofs_ok"], st["status"], st["statements"], st["discharged"], st["theorems"],
@@ -480,7 +481,7 @@ def main():
     cov["trusted_base"] = spec.get("trusted_base", [])
     if tier == "thorough" and spec.get("modules") and not proof_broken:
         # independent re-check of the compiled property modules
-        tie_mods = [] if pid in ("C19", "C20") else ["Wormhole.Tie.All", "Wormhole.Tie.WsTop", "Wormhole.Tie.Summ", "Wormhole.Tie.Tap", "Wormhole.Tie.SrvAll"]
+        tie_mods = [] if pid in ("C19", "C20") else ["Wormhole.Tie.All", "Wormhole.Tie.WsTop", "Wormhole.Tie.Summ", "Wormhole.Tie.Tap", "Wormhole.Tie.SrvAll", "Wormhole.Tie.Wire"]
         tie_mods = [m for m in tie_mods if os.path.exists(os.path.join(LEAN, ".lake", "build", "lib", "lean", m.replace(".", "/") + ".olean"))]
         lc = subprocess.run(["lake", "env", "leanchecker"] + spec["modules"] + tie_mods, cwd=LEAN, stdout=subprocess.PIPE,
                             stderr=subprocess.STDOUT, timeout=3000)
@@ -520,6 +521,11 @@ def main():
         except Exception as e:
             srv_tie = {"status": "not-run", "detail": "%s: %s" % (type(e).__name__, e)}
         cov["server_methods_tie"] = srv_tie
+        try:
+            wire_tie = sqltie.run_wire()
+        except Exception as e:
+            wire_tie = {"status": "not-run", "detail": "%s: %s" % (type(e).__name__, e)}
+        cov["configuration_wiring_tie"] = wire_tie
         ties_untied = []
         if sql_tie["status"] != "tied":
             ties_untied.append("SQL statements of server.py (%s: %s)" % (
@@ -532,6 +538,8 @@ def main():
             ties_untied.append("expire() / TimerService of server_tap.py (%s: %s)" % (tap_tie["status"], tap_tie.get("detail", "")[:200]))
         if srv_tie["status"] != "tied":
             ties_untied.append("methods of Mailbox / AppNamespace in server.py (%s: %s)" % (srv_tie["status"], srv_tie.get("detail", "")[:200]))
+        if wire_tie["status"] != "tied":
+            ties_untied.append("constructors / construction sites from makeService to Mailbox (%s: %s)" % (wire_tie["status"], wire_tie.get("detail", "")[:200]))
         for u in ties_untied:
             log("NOTE: static tie not established on this tree - %s - the hand-written model of that part is tied by differential "
                 "execution only; widening the search on the code" % u)
